@@ -497,6 +497,9 @@ func (e *env) prototypes(c *config.Configuration) {
 		}
 	}
 	jfKS("jf-ks-a-as-k1-named", map[string]any{"key_store": map[string]any{"path": e.stores["a-as-k1"]}, "name": "other-signer"})
+
+	// remote systems of the second server: answers without payload, key sets per caller, JWT formatted access tokens
+	e.backendPrototypes(addAuthn, addAuthz)
 }
 
 // ---------------------------------------------------------------------------------------------
@@ -838,6 +841,11 @@ func (e *env) pairs() {
 		concEnd = len(all)
 	}
 	e.conc = append(e.conc, all[:concEnd]...)
+	// pairs against the second server (own random stream: the pairs above stay what they were)
+	rngBE := e.r.Stream("backend-pairs")
+	for i := 0; i < reps; i++ {
+		e.backendPairs(add, rngBE, i)
+	}
 	for _, pc := range all {
 		e.runPair(pc)
 	}
